@@ -296,6 +296,104 @@ def run(ctx):
             ctx.fail("expression-exception", f"{type(e).__name__}: {e}", case)
     ctx.streams["bound-parameters"] = n_e
 
+    # ---------------------------------------------------------------- an expression in any slot of any component
+    # (every kind of parametrised component, every angle slot, bound to na*a + nb*b; the sub-parameters change between
+    #  evaluations and the numeric and symbolic matrices must follow)
+    n_x = ctx.n(80, 800)
+    xcases, xreqs, xwhere = [], [], []
+    for i in range(n_x):
+        r = rng.fork(("exprslot", i))
+        kind = r.choice(["BS", "BS", "BS", "PS", "PR", "WP", "HWP", "QWP"])
+        cv = r.below(3)
+        slot = {"BS": r.choice(["theta", "phi_tl", "phi_bl", "phi_tr", "phi_br"]), "PS": "phi", "PR": "delta",
+                "WP": r.choice(["delta", "xsi"]), "HWP": "xsi", "QWP": "xsi"}[kind]
+        na, nb = r.rint(-2, 2), r.rint(-2, 2)
+        if na == 0:
+            na = 1
+        others = [rand_ang(r) for _ in range(5)]          # the component's other angles (numbers)
+        vals = [(rand_ang(r, False), rand_ang(r, False))]
+        for _ in range(r.rint(1, 4)):
+            a, b = vals[-1]
+            if r.chance(1, 2):
+                a = rand_ang(r, False)
+            else:
+                b = rand_ang(r, False)
+            vals.append((a, b))
+        xcases.append((kind, cv, slot, na, nb, others, vals))
+        for qi, (a, b) in enumerate(vals):
+            e = ang_lin(na, a, nb, b)
+            if kind == "BS":
+                o = others
+                t2 = e if slot == "theta" else o[4]
+                phs = [e if slot == nm else o[k] for k, nm in enumerate(["phi_tl", "phi_bl", "phi_tr", "phi_br"])]
+                xreqs.append((1, [cv, QI(t2.cos), QI(t2.sin), ph(phs[0]), ph(phs[1]), ph(phs[2]), ph(phs[3])]))
+            elif kind == "PS":
+                xreqs.append((2, [ph(e)]))
+            elif kind == "PR":
+                xreqs.append((4, [QI(e.cos), QI(e.sin)]))
+            elif kind == "WP":
+                d, x2 = (e, others[0]) if slot == "delta" else (others[0], e)
+                xreqs.append((3, [QI(d.cos), QI(d.sin), QI(x2.cos), QI(x2.sin)]))
+            elif kind == "HWP":
+                xreqs.append((3, [QI(0), QI(1), QI(e.cos), QI(e.sin)]))
+            else:
+                c = frac_of_float(math.cos(math.pi / 4))
+                sn = frac_of_float(math.sin(math.pi / 4))
+                xreqs.append((3, [QI(c), QI(sn), QI(e.cos), QI(e.sin)]))
+            xwhere.append((i, qi))
+    xouts = ctx.model.run(xreqs)
+    xexp = {w: un_mat(o) for w, o in zip(xwhere, xouts)}
+    for i, (kind, cv, slot, na, nb, others, vals) in enumerate(xcases):
+        pa, pb = Parameter(f"xa{i}"), Parameter(f"xb{i}")
+        lin = f"{na}*xa{i}" + (f" + {nb}*xb{i}" if nb else "")
+        # BS theta is twice the modelled half-angle; the wave plates' xsi is half the modelled angle
+        expr_s = f"2*({lin})" if (kind == "BS" and slot == "theta") else (f"({lin})/2" if slot == "xsi" else lin)
+        case = {"component": kind, "convention": CONV[cv] if kind == "BS" else None, "slot": slot, "expression": expr_s,
+                "other angles": [o.value for o in others], "values (a, b) per evaluation": [(a.value, b.value) for a, b in vals]}
+        ctx.case(["exprslot", kind, cv, slot, na, nb, [o.key() for o in others], [(a.key(), b.key()) for a, b in vals]],
+                 True, case)
+        ctx.count("expression-slot." + kind + "." + slot)
+        try:
+            ex = Expression(expr_s, {pa, pb} if nb else {pa})
+            o = others
+            if kind == "BS":
+                args = {"theta": 2 * o[4].value, "phi_tl": o[0].value, "phi_bl": o[1].value, "phi_tr": o[2].value,
+                        "phi_br": o[3].value}
+                args[slot] = ex
+                comp = BS(convention=conv_enum[CONV[cv]], **args)
+            elif kind == "PS":
+                comp = PS(ex)
+            elif kind == "PR":
+                comp = PR(ex)
+            elif kind == "WP":
+                comp = WP(ex, o[0].value / 2) if slot == "delta" else WP(o[0].value, ex)
+            elif kind == "HWP":
+                comp = HWP(ex)
+            else:
+                comp = QWP(ex)
+            pol = None if kind in ("BS", "PS") else True
+            for qi, (a, b) in enumerate(vals):
+                pa.set_value(a.value)
+                pb.set_value(b.value)
+                expect = xexp[(i, qi)]
+                num = [[complex(x) for x in row] for row in comp.compute_unitary(use_polarization=pol).tolist()]
+                if not mat_close(num, expect, 1e-8):
+                    ctx.fail("expression-slot-stale", f"a component bound to an expression of parameters does not reflect their "
+                             f"current values (evaluation {qi + 1})", case, str(expect), str(num))
+                    break
+                if i_sym(ctx) or qi == len(vals) - 1:
+                    sym = comp.compute_unitary(use_symbolic=True, use_polarization=pol)
+                    subs = {pa.name: float(pa), pb.name: float(pb)}
+                    n = len(expect)
+                    symn = [[complex(sp_num(sym[r_, c_], subs)) for c_ in range(n)] for r_ in range(n)]
+                    if not mat_close(symn, expect, 1e-8):
+                        ctx.fail("expression-slot-stale-symbolic", "the symbolic matrix of a component bound to an expression "
+                                 f"does not reflect the current parameter values (evaluation {qi + 1})", case, str(expect), str(symn))
+                        break
+        except Exception as e:
+            ctx.fail("expression-slot-exception", f"{type(e).__name__}: {e}", case)
+    ctx.streams["expression in any slot, values changed between evaluations"] = n_x
+
     # cross-check the extraction against vm_compute on a sample
     if not ctx.quick() or True:
         sample = [(1, [0, QI(Fraction(3, 5)), QI(Fraction(4, 5)), QI(1), QI(0, 1), QI(Fraction(5, 13), Fraction(12, 13)), QI(1)]),
@@ -315,3 +413,27 @@ def i_sym(ctx):
 
 def replay(ctx, case):
     print(case)
+
+
+def ang_lin(na, a, nb, b):
+    """The angle na*a + nb*b with exact rational cosine and sine (rotation composition)."""
+    def cpow(c, s_, n):
+        if n < 0:
+            s_, n = -s_, -n
+        rc, rs = Fraction(1), Fraction(0)
+        for _ in range(n):
+            rc, rs = rc * c - rs * s_, rc * s_ + rs * c
+        return rc, rs
+    c1, s1 = cpow(a.cos, a.sin, na)
+    c2, s2 = cpow(b.cos, b.sin, nb)
+    out = Ang(1, 0, 1)
+    out.cos, out.sin = c1 * c2 - s1 * s2, c1 * s2 + s1 * c2
+    out.value = na * a.value + nb * b.value
+    return out
+
+
+def sp_num(x, subs):
+    try:
+        return x.subs(subs).evalf(30)
+    except AttributeError:
+        return x
